@@ -373,7 +373,7 @@ def run(ctx):
     nx = F.one_body(r"^<selium::keep_alive::backoff_strategy::BackoffStrategyIter as core::iter::traits::iterator::Iterator>::next$")
     ii = F.one_body(r"^<selium::keep_alive::backoff_strategy::BackoffStrategy as core::iter::traits::collect::IntoIterator>::into_iter$")
     ctx.touch(nx, ii)
-    c13.count_shape(ctx, F, nx, ii)
+    c13.count_shape(ctx, F, F.inlined(nx), ii)
     bs = [b_ for p_, b_ in sorted(F.bodies.items()) if p_.startswith("selium::keep_alive::backoff_strategy::BackoffStrategy::with_") and "{closure" not in p_]
     for b_ in bs:
         dflt = [c for c in b_.calls() if strip_generics(c.callee) == "core::default::Default::default" or (c.name() in ("default", "new") and "backoff_strategy" in (c.callee + (c.t.get("resolved") or "")))]
